@@ -23,6 +23,58 @@ SHARD_TIMEOUT = {"thorough": 3000}
 N_CASES = {"quick": 2500, "thorough": 2000}  # per shard
 
 
+def rerun_after_caller_mutation(run, case, scratch):
+    """One Pipeline object run twice; in between the caller modifies IN PLACE every <var>_values sequence the first run
+    published (sorting it, dropping an item - what a downstream consumer of that list may do).  The second run must
+    expand the DECLARED sweep again: same data, same published sequences."""
+    from semantiva.context_processors.context_types import ContextType
+    from semantiva.pipeline.payload import Payload
+    from vlib import account
+
+    import copy
+
+    try:
+        pipe = account.build_pipeline(case["nodes"])
+    except Exception:
+        return
+    def once():
+        out = pipe.process(Payload(account.to_real_data(case["data"]), ContextType(copy.deepcopy(case["ctx"]))))
+        return out, account.plain(out.data), account.plain(out.context.to_dict())
+    try:
+        out1, d1, c1 = once()
+    except Exception:
+        return
+    touched = 0
+    for k in list(out1.context.to_dict()):
+        if not k.endswith("_values"):
+            continue
+        v = out1.context.get_value(k)
+        try:
+            if isinstance(v, list) and v:
+                v.reverse()
+                v.pop()
+                touched += 1
+            elif hasattr(v, "shape") and getattr(v, "size", 0):
+                v[...] = 0
+                touched += 1
+        except Exception:
+            pass
+    if not touched:
+        return
+    run.count("reruns_after_caller_mutated_published_sequences")
+    try:
+        _out2, d2, c2 = once()
+    except Exception as exc:
+        run.violation("second_run_differs_after_caller_mutated_published_sequence",
+                      f"the second run of the same Pipeline raised {type(exc).__name__}: {str(exc)[:120]} after the caller modified the published "
+                      f"<var>_values lists of the first run in place", {"case": case, "first": {"data": d1}})
+        return
+    if not (account.close(d1, d2) and account.close(c1, c2)):
+        run.violation("second_run_differs_after_caller_mutated_published_sequence",
+                      "the second run of the same Pipeline expands a different sweep after the caller modified, in place, the <var>_values "
+                      "lists the first run published", {"case": case, "first": {"data": d1, "ctx": c1}, "second": {"data": d2, "ctx": c2}})
+
+
 def run(run):
     boot.boot()
     from vlib import gen, refmodel as rm
@@ -38,6 +90,8 @@ def run(run):
             m = compare(run, case, via_yaml=(i % 3 == 2), scratch=scratch)
             if m is None:
                 continue
+            if i % 4 == 1 and m.ok:
+                rerun_after_caller_mutation(run, case, scratch)
             steps = 0
             nontrivial = False
             for nm in m.models:
@@ -86,6 +140,7 @@ def replay(run, witness):
     scratch = tempfile.mkdtemp(prefix="verif-c03-")
     try:
         compare(run, witness["case"], witness.get("via_yaml", False), scratch)
+        rerun_after_caller_mutation(run, witness["case"], scratch)
         run.case(witness["case"], True, sample=witness["case"])
         run.case("replay-second-slot", True)
     finally:
